@@ -17,6 +17,10 @@ import GqlProofs.ValSpec.ValuesCorrectFinal
 import GqlProofs.Validate.OverlapSound
 import GqlProofs.Props.C18
 import GqlProofs.Validate.OverlapWitness
+import GqlProofs.EndToEnd.Parsed
+import GqlProofs.EndToEnd.Loaded
+import GqlProofs.EndToEnd.ParsedSchemaTree
+import GqlProofs.EndToEnd.LoadedWP
 /-
   C08 — validation accepts exactly what the rules allow.
 
@@ -122,6 +126,22 @@ import GqlProofs.Validate.OverlapWitness
   §5.3.2), under `C08Hyps` (parser shape of the document, loader invariants of the schema, and the
   side conditions named above that are not specification predicates themselves); the masked forms
   need no hypothesis there.
+
+  END TO END (section at the bottom of this file; proofs in `GqlProofs/EndToEnd/`): every hypothesis of
+  `C08Hyps` that is about the SHAPE of the document is an invariant of parser output
+  (`parsed_kinds`, `parsed_valuesShaped`, `parsed_constDefaults`, `parsed_typeConds`,
+  `parsed_numLiteralsOK` — the Float half included, `Gql.EndToEnd.float_lexeme_agree` —,
+  `parsed_leavesWellFormed`, `parsed_usePosDistinct`: `GqlProofs/EndToEnd/Parsed.lean`), every
+  hypothesis about the schema alone is an invariant of loader output (`loaded_*`,
+  `GqlProofs/EndToEnd/Loaded.lean`, modulo the recorded non-object-root finding
+  `rootTypesAreObjects`); `C08_parsed_loaded_iff_spec` is the capstone over a SOURCE TEXT and a
+  loaded schema, with only the semantic side conditions left (`C08SemanticHyps`);
+  `C08_sources_iff_spec` takes the schema as source texts too (`ParseSchemas` → `load`).
+  `Spec.wellParented` is NOT an invariant of parser / loader output but a consequence of EITHER side of
+  the equivalence (`C08_wellParented_of_spec`, `C08_wellParented_of_rules`, `C08_wellParented_of_valid`;
+  `GqlProofs/EndToEnd/WellParented.lean`), so `C08_sources_iff_spec_wp` / `C08_parsed_loaded_iff_spec_wp`
+  need only `C08ResidualHyps` (selectRoot, rootKeys, defaultedLocations), the prelude and the
+  non-object-root finding.
 
   NOT finished (the full statement, kept as the goal):
     C08_verdict : Closed s → (validate defaultRules s d = .ok [] ↔ Spec.specValid s d = true)
@@ -1640,3 +1660,219 @@ end C08
 #print axioms C08_UniqueOperationNames_iff
 #print axioms C08_UniqueVariableNames
 #print axioms C08_default_LoneAnonymousOperation
+
+
+/- ======================= END TO END: parsed documents, loaded schemas ======================= -/
+section EndToEnd
+open Gql.EndToEnd Gql.Load
+
+
+/-- the hypotheses of the C08 capstone that speak about the DOCUMENT (shape of parser output, the
+    numeric-literal and leaf-lexeme conditions, the side conditions of SingleFieldSubscriptions and of
+    the VariablesInAllowedPosition finding): `C08Hyps s d` without its schema-side fields -/
+structure C08DocHyps (s : Schema) (d : QueryDoc) : Prop where
+  kinds : ∀ op ∈ d.ops, op.op ∈ parserOpKinds
+  wellParented : Gql.Validate.Spec.wellParented s d = true
+  valuesShaped : valuesShaped s d = true
+  constDefaults : constDefaults d = true
+  typeConds : ∀ f ∈ d.frags, f.typeCond ≠ []
+  selectRoot : subscriptionsSelectRoot s d = true
+  rootKeys : rootKeysConsistent s d = true
+  defaultedLocations : defaultedLocationsHarmless s d = true
+  numLiterals : numLiteralsOK s d = true
+  leaves : leavesWellFormed s d = true
+  usePos : usePosDistinct s d = true
+
+/-- the hypothesis structure of `C08_default_rules_iff_spec_partial`, for a loaded schema -/
+theorem C08Hyps_of_loaded {s : Schema} {d : QueryDoc} (L : LoadedHyps s) (D : C08DocHyps s d) : C08Hyps s d :=
+  { kinds := D.kinds, wellParented := D.wellParented, outputTypes := L.outputTypes d,
+    noEmptyTypeName := L.noEmptyTypeName, possibleOK := L.possibleOK, subscriptionRoot := L.subscriptionRoot,
+    valuesShaped := D.valuesShaped, constDefaults := D.constDefaults, typeConds := D.typeConds,
+    selectRoot := D.selectRoot, rootKeys := D.rootKeys, inputPositions := L.inputPositions,
+    defaultedLocations := D.defaultedLocations, schemaOK := L.schemaOK, argTypes := L.argTypes,
+    directiveArgTypes := L.directiveArgTypes, numLiterals := D.numLiterals, leaves := D.leaves,
+    usePos := D.usePos }
+
+/-- **the C08 capstone for a loaded schema**: the schema-side hypotheses are discharged by the loader -/
+theorem C08_loaded_default_rules_iff_spec_partial {sd : SchemaDoc} {s : Schema} (h : load sd = .ok s)
+    (hp : PreludeDeclared sd) (hks : KindFieldless .scalar sd) (hke : KindFieldless .enum sd) (hn : NamesNonEmpty sd)
+    (hroots : Gql.Spec.rootTypesAreObjects s = true) (d : QueryDoc) (D : C08DocHyps s d) :
+    validate c08Rules s d = .ok [] ↔
+      ((Gql.Validate.Spec.specVerdicts s d).filter (fun p => !c08Uncovered.contains p.1)).all (·.2) = true :=
+  C08_default_rules_iff_spec_partial s d (C08Hyps_of_loaded (loaded_hyps h hp hks hke hn hroots) D)
+
+
+/-- The hypotheses of the capstone that are neither invariants of parser output nor of loader output
+    — the genuinely SEMANTIC side conditions:
+    * `wellParented`: every selection is written where the type in scope is composite (fails only for
+      documents that both sides reject, see the header; no rule-free derivation from validity yet);
+    * `selectRoot`, `rootKeys`: the two hazards of SingleFieldSubscriptions (a subscription that
+      collects no root field; two collected root fields with one response key and different names —
+      the latter is excluded by field merging §5.3.2, the one rule outside `c08Rules`);
+    * `defaultedLocations`: the recorded finding about VariablesInAllowedPosition is not triggered. -/
+structure C08SemanticHyps (s : Schema) (d : QueryDoc) : Prop where
+  wellParented : Spec.wellParented s d = true
+  selectRoot : subscriptionsSelectRoot s d = true
+  rootKeys : rootKeysConsistent s d = true
+  defaultedLocations : defaultedLocationsHarmless s d = true
+
+/-- the document-side hypotheses of the capstone, for a PARSED document: everything about the shape
+    of the tree is discharged by the parser model -/
+theorem C08DocHyps_of_parsed {L : Nat} {inp : Bytes} {d : QueryDoc} (hp : Parser.parseQuery L inp = .ok d)
+    (s : Schema) (S : C08SemanticHyps s d) : C08DocHyps s d :=
+  { kinds := parsed_kinds hp, wellParented := S.wellParented, valuesShaped := parsed_valuesShaped hp s,
+    constDefaults := parsed_constDefaults hp, typeConds := parsed_typeConds hp, selectRoot := S.selectRoot,
+    rootKeys := S.rootKeys, defaultedLocations := S.defaultedLocations, numLiterals := parsed_numLiteralsOK hp s,
+    leaves := parsed_leavesWellFormed hp s, usePos := parsed_usePosDistinct hp s }
+
+/-- `C08Hyps` for a parsed document and ANY schema that satisfies the schema-side bundle -/
+theorem C08Hyps_of_parsed {L : Nat} {inp : Bytes} {d : QueryDoc} (hp : Parser.parseQuery L inp = .ok d)
+    {s : Schema} (Ls : LoadedHyps s) (S : C08SemanticHyps s d) : C08Hyps s d :=
+  C08Hyps_of_loaded Ls (C08DocHyps_of_parsed hp s S)
+
+/-- **C08 END TO END.**  `sd` loads to the schema `s`, the source text `inp` parses (under any token
+    limit `L`) to the document `d`.  Then the 26 default rules with a proved equivalence, run
+    together, report nothing iff the 27 specification predicates they stand for hold.
+    Hypotheses left:
+    * on the schema document: the prelude is part of it (`PreludeDeclared sd`), and the tree has the
+      shape the schema parser produces (`KindFieldless`: scalar / enum definitions carry no fields;
+      `NamesNonEmpty`) — see `Gql.EndToEnd.Loaded` for kernel-checked witnesses that `load` on
+      arbitrary trees needs them;
+    * `rootTypesAreObjects s`: the recorded non-object-root finding (the loader accepts
+      `interface Subscription {…}` / `scalar Query` as root types);
+    * the semantic side conditions `C08SemanticHyps s d`. -/
+theorem C08_parsed_loaded_iff_spec {sd : SchemaDoc} {s : Schema} (hl : load sd = .ok s)
+    (hprel : PreludeDeclared sd) (hks : KindFieldless .scalar sd) (hke : KindFieldless .enum sd) (hn : NamesNonEmpty sd)
+    (hroots : Gql.Spec.rootTypesAreObjects s = true)
+    {L : Nat} {inp : Bytes} {d : QueryDoc} (hp : Parser.parseQuery L inp = .ok d) (S : C08SemanticHyps s d) :
+    validate c08Rules s d = .ok [] ↔
+      ((Spec.specVerdicts s d).filter (fun p => !c08Uncovered.contains p.1)).all (·.2) = true :=
+  C08_default_rules_iff_spec_partial s d (C08Hyps_of_parsed hp (loaded_hyps hl hprel hks hke hn hroots) S)
+
+/-- the single-rule theorems whose only hypotheses were parser shape, over source texts -/
+theorem C08_UniqueArgumentNames_parsed {L : Nat} {inp : Bytes} {d : QueryDoc} (hp : Parser.parseQuery L inp = .ok d)
+    (s : Schema) : validate [uniqueArgumentNames] s d = .ok [] ↔ Spec.argumentUniqueness s d = true :=
+  C08_UniqueArgumentNames s d (parsed_kinds hp)
+
+theorem C08_KnownDirectives_parsed {L : Nat} {inp : Bytes} {d : QueryDoc} (hp : Parser.parseQuery L inp = .ok d)
+    (s : Schema) : validate [knownDirectives] s d = .ok [] ↔
+      (Spec.directivesAreDefined s d = true ∧ Spec.directivesInValidLocations s d = true) :=
+  C08_KnownDirectives s d (parsed_kinds hp)
+
+theorem C08_UniqueInputFieldNames_parsed {L : Nat} {inp : Bytes} {d : QueryDoc} (hp : Parser.parseQuery L inp = .ok d)
+    (s : Schema) : validate [uniqueInputFieldNames] s d = .ok [] ↔ Spec.inputObjectFieldUniqueness s d = true :=
+  C08_UniqueInputFieldNames s d (parsed_valuesShaped hp s)
+
+/-- **C08 END TO END over SOURCE TEXTS on both sides.**  The schema sources `srcs` (the prelude and the
+    user's sources, each with its `BuiltIn` flag) are well-formed UTF-8 and `ParseSchemas` merges them
+    into `sd`; `sd` loads to `s`; the query source `inp` parses to `d`.  The tree-shape hypotheses of
+    `C08_parsed_loaded_iff_spec` are discharged by the schema parser model
+    (`Gql.EndToEnd.parseSchemas_treeHyps`).  Left: the prelude is among the sources
+    (`PreludeDeclared sd`), the recorded non-object-root finding (`rootTypesAreObjects s`), and the
+    semantic side conditions `C08SemanticHyps s d`. -/
+theorem C08_sources_iff_spec {Ls : Nat} {srcs : List (Bool × Bytes)} {sd : SchemaDoc} {s : Schema}
+    (hsrc : ∀ src ∈ srcs, Lexer.Utf8.valid src.2) (hps : Parser.parseSchemas Ls srcs = .ok sd)
+    (hl : load sd = .ok s) (hprel : PreludeDeclared sd) (hroots : Gql.Spec.rootTypesAreObjects s = true)
+    {L : Nat} {inp : Bytes} {d : QueryDoc} (hp : Parser.parseQuery L inp = .ok d) (S : C08SemanticHyps s d) :
+    validate c08Rules s d = .ok [] ↔
+      ((Spec.specVerdicts s d).filter (fun p => !c08Uncovered.contains p.1)).all (·.2) = true :=
+  have T := parseSchemas_treeHyps hsrc hps
+  C08_parsed_loaded_iff_spec hl hprel T.scalars T.enums T.names hroots hp S
+
+
+/-! #### `Spec.wellParented` is a consequence of either side -/
+
+/-- the specification side: knownRootType, fragmentSpreadTypeExistence, fragmentsOnCompositeTypes,
+    fieldSelections and leafFieldSelections imply `Spec.wellParented` (on a schema with the loader's
+    invariants `WPSchema s`) -/
+theorem C08_wellParented_of_spec {s : Schema} (W : WPSchema s) (d : QueryDoc)
+    (h1 : Spec.knownRootType s d = true) (h2 : Spec.fragmentSpreadTypeExistence s d = true)
+    (h3 : Spec.fragmentsOnCompositeTypes s d = true) (h4 : Spec.fieldSelections s d = true)
+    (h5 : Spec.leafFieldSelections s d = true) : Spec.wellParented s d = true :=
+  wellParented_of_spec W d h1 h2 h3 h4 h5
+
+/-- the validator side: a document on which KnownRootType, KnownTypeNames, FragmentsOnCompositeTypes,
+    FieldsOnCorrectType and ScalarLeafs report nothing is well parented -/
+theorem C08_wellParented_of_rules {s : Schema} (W : WPSchema s) (hE : s.type? [] = none) (d : QueryDoc)
+    (r1 : validate [knownRootType] s d = .ok []) (r2 : validate [knownTypeNames] s d = .ok [])
+    (r3 : validate [fragmentsOnCompositeTypes] s d = .ok []) (r4 : validate [fieldsOnCorrectType] s d = .ok [])
+    (r5 : validate [scalarLeafs] s d = .ok []) : Spec.wellParented s d = true :=
+  wellParented_of_rules W d ((C08_KnownRootType s d).1 r1) ((C08_KnownTypeNames s d).1 r2).1
+    ((C08_FragmentsOnCompositeTypes s d hE).1 r3) r4 r5
+
+/-- every document that validates against a schema with the loader's invariants is well parented -/
+theorem C08_wellParented_of_valid {s : Schema} (W : WPSchema s) (hE : s.type? [] = none) (d : QueryDoc)
+    (hv : validate c08Rules s d = .ok []) : Spec.wellParented s d = true := by
+  have hall := (C08_rule_list_silent_iff c08Rules s d (by decide)).1 hv
+  exact C08_wellParented_of_rules W hE d (hall _ (by simp [c08Rules])) (hall _ (by simp [c08Rules]))
+    (hall _ (by simp [c08Rules])) (hall _ (by simp [c08Rules])) (hall _ (by simp [c08Rules]))
+
+/-- the capstone with `Spec.wellParented` discharged on both sides: `mk` builds the remaining
+    hypotheses from well-parentedness -/
+theorem C08_default_rules_iff_spec_wp (s : Schema) (d : QueryDoc) (W : WPSchema s) (hE : s.type? [] = none)
+    (mk : Spec.wellParented s d = true → C08Hyps s d) :
+    validate c08Rules s d = .ok [] ↔
+      ((Spec.specVerdicts s d).filter (fun p => !c08Uncovered.contains p.1)).all (·.2) = true := by
+  constructor
+  · intro hv
+    exact (C08_default_rules_iff_spec_partial s d (mk (C08_wellParented_of_valid W hE d hv))).1 hv
+  · intro hs
+    have hs' := hs
+    simp only [Spec.specVerdicts, c08Uncovered] at hs'
+    simp [List.filter, List.all] at hs'
+    obtain ⟨_, _, _, rootType, fields, leafs, _, _, _, _, typeEx, fragComp, _⟩ := hs'
+    exact (C08_default_rules_iff_spec_partial s d
+      (mk (C08_wellParented_of_spec W d rootType typeEx fragComp fields leafs))).2 hs
+
+/-- what is left of `C08SemanticHyps` once `Spec.wellParented` is derived -/
+structure C08ResidualHyps (s : Schema) (d : QueryDoc) : Prop where
+  selectRoot : subscriptionsSelectRoot s d = true
+  rootKeys : rootKeysConsistent s d = true
+  defaultedLocations : defaultedLocationsHarmless s d = true
+
+/-- **C08 END TO END, `Spec.wellParented` discharged.**  Schema sources → `ParseSchemas` → `load`; query
+    source → `parseQuery`.  The 26 rules report nothing iff the 27 predicates hold.  Hypotheses left:
+    the prelude is among the schema sources, the recorded non-object-root finding
+    (`rootTypesAreObjects s`), and `C08ResidualHyps s d`: the two hazards of SingleFieldSubscriptions
+    (`selectRoot`; `rootKeys`, a consequence of field merging §5.3.2, the one rule outside `c08Rules`)
+    and the recorded finding about VariablesInAllowedPosition (`defaultedLocations`). -/
+theorem C08_sources_iff_spec_wp {Ls : Nat} {srcs : List (Bool × Bytes)} {sd : SchemaDoc} {s : Schema}
+    (hsrc : ∀ src ∈ srcs, Lexer.Utf8.valid src.2) (hps : Parser.parseSchemas Ls srcs = .ok sd)
+    (hl : load sd = .ok s) (hprel : PreludeDeclared sd) (hroots : Gql.Spec.rootTypesAreObjects s = true)
+    {L : Nat} {inp : Bytes} {d : QueryDoc} (hp : Parser.parseQuery L inp = .ok d) (R : C08ResidualHyps s d) :
+    validate c08Rules s d = .ok [] ↔
+      ((Spec.specVerdicts s d).filter (fun p => !c08Uncovered.contains p.1)).all (·.2) = true :=
+  have T := parseSchemas_treeHyps hsrc hps
+  have LH := loaded_hyps hl hprel T.scalars T.enums T.names hroots
+  C08_default_rules_iff_spec_wp s d (loaded_wpSchema hl hprel T.unions hroots) LH.noEmptyTypeName
+    (fun hwp => C08Hyps_of_parsed hp LH
+      { wellParented := hwp, selectRoot := R.selectRoot, rootKeys := R.rootKeys,
+        defaultedLocations := R.defaultedLocations })
+
+/-- the same for a schema document given as a tree (the tree-shape hypotheses explicit) -/
+theorem C08_parsed_loaded_iff_spec_wp {sd : SchemaDoc} {s : Schema} (hl : load sd = .ok s)
+    (hprel : PreludeDeclared sd) (hks : KindFieldless .scalar sd) (hke : KindFieldless .enum sd)
+    (hku : KindFieldless .union sd) (hn : NamesNonEmpty sd) (hroots : Gql.Spec.rootTypesAreObjects s = true)
+    {L : Nat} {inp : Bytes} {d : QueryDoc} (hp : Parser.parseQuery L inp = .ok d) (R : C08ResidualHyps s d) :
+    validate c08Rules s d = .ok [] ↔
+      ((Spec.specVerdicts s d).filter (fun p => !c08Uncovered.contains p.1)).all (·.2) = true :=
+  have LH := loaded_hyps hl hprel hks hke hn hroots
+  C08_default_rules_iff_spec_wp s d (loaded_wpSchema hl hprel hku hroots) LH.noEmptyTypeName
+    (fun hwp => C08Hyps_of_parsed hp LH
+      { wellParented := hwp, selectRoot := R.selectRoot, rootKeys := R.rootKeys,
+        defaultedLocations := R.defaultedLocations })
+
+end EndToEnd
+
+#print axioms C08_wellParented_of_spec
+#print axioms C08_wellParented_of_rules
+#print axioms C08_wellParented_of_valid
+#print axioms C08_default_rules_iff_spec_wp
+#print axioms C08_sources_iff_spec_wp
+#print axioms C08_parsed_loaded_iff_spec_wp
+#print axioms C08_sources_iff_spec
+#print axioms C08DocHyps_of_parsed
+#print axioms C08_parsed_loaded_iff_spec
+#print axioms C08_UniqueArgumentNames_parsed
+#print axioms C08_KnownDirectives_parsed
+#print axioms C08_UniqueInputFieldNames_parsed
